@@ -47,9 +47,34 @@ def run(chk):
         info.update(faulty=len(faulty), diffs=len(out))
         return out
 
-    rc.run_runner_check(chk, "C15", "proj_C15", OPTS, extra_oracle=twin_oracle)
+    ok = chk.check_theorems()
+    rc.run_runner_check(chk, "C15", "proj_C15", OPTS, extra_oracle=twin_oracle, theorems_ok=ok)
     chk.coverage["hook_fault_scripts_compared_with_silent_twin"] = info.get("faulty", 0)
     chk.coverage["silent_twin_differences"] = info.get("diffs", 0)
+    # the breaker events emitted by Policy (policy_helpers._emit_breaker_event) with raising hooks: full trace against the
+    # Policy model (which reports to both sinks whatever the other does) + silent twin on the implementation
+    import policy_common as pc
+    pinfo = {}
+
+    def ptwin(seqs, obs):
+        faulty = [i for i, s in enumerate(seqs)
+                  if any(c["env"][k] for c in s["calls"] for k in ("metric_raises", "log_raises", "bs_raises"))]
+        twins = [silent_twin(seqs[i]) for i in faulty]
+        tobs = pc.run_impl(twins, jobs=8) if twins else []
+        out = []
+        for i, so in zip(faulty, tobs):
+            a = [[o["trace"], o["delivery"], o.get("end"), o.get("breaker_state")] for o in obs[i]]
+            b = [[o["trace"], o["delivery"], o.get("end"), o.get("breaker_state")] for o in so]
+            if a != b:
+                j = next(j for j in range(len(a)) if a[j] != b[j])
+                out.append((i, f"call #{j}: with raising hooks the policy run differs from the run with silent hooks: "
+                               f"{[e[:2] for e in a[j][0]][:12]} vs {[e[:2] for e in b[j][0]][:12]}"))
+        pinfo.update(faulty=len(faulty), diffs=len(out))
+        return out
+
+    pc.run_policy_check(chk, "C15", "proj_P12", {"p_hook_fault": 0.9, "p_metric": 0.95, "p_log": 0.8, "p_no_retry": 0.2}, oracle_pid="none",
+                        theorems_ok=ok, cov_key="policy_breaker_events", n_quick=200, n_thorough=3000, extra_oracle=ptwin)
+    chk.coverage["policy_hook_fault_scripts_compared_with_silent_twin"] = pinfo.get("faulty", 0)
 
 
 def replay(path):
